@@ -587,6 +587,8 @@ pub fn cmd_run(args: &[String]) -> i32 {
     let mut harness_errors: Vec<String> = agg.harness.iter().map(|h| h["detail"].as_str().unwrap_or("?").to_string()).collect();
     let replay_dir = verif_root().join("replays");
     let _ = std::fs::create_dir_all(&replay_dir);
+    let minimise_started = Instant::now();
+    let mut classes_minimised = 0;
     for (class, vs) in &by_class {
         // known findings first: every report of this class that matches an open finding is attributed to it
         let mut unmatched: Vec<&Value> = Vec::new();
@@ -616,7 +618,10 @@ pub fn cmd_run(args: &[String]) -> i32 {
             continue;
         }
         // 2. minimise, 3. verify the minimised file once more in a fresh process
-        let (min, tried) = minimise(&desc, class, Duration::from_secs(if thorough { 180 } else { 60 }));
+        // a badly broken tree fails in many ways at once: minimise the first few classes only
+        classes_minimised += 1;
+        let budget = if classes_minimised > 4 || minimise_started.elapsed() > Duration::from_secs(150) { 0 } else if thorough { 120 } else { 45 };
+        let (min, tried) = if budget == 0 { (desc.clone(), 0) } else { minimise(&desc, class, Duration::from_secs(budget)) };
         let fin = exec_descs(&[min.clone()], 1, true);
         let (final_desc, final_out) = match &fin {
             Ok(o) if first_violation(&o[0]).map(|(c, _)| c == *class).unwrap_or(false) => (min, o[0].clone()),
